@@ -243,4 +243,182 @@ theorem run_progress {cfg : Cfg} (ks : List Part) : ∀ {st},
     · exfalso
       rcases hout with ⟨_, e2⟩ | ⟨_, _, _, e2⟩ | ⟨_, _, _, e2⟩ <;> rw [e2] at hk <;> simp [Outcome.completes] at hk
 
+/-! ### rotation / rekey / generate-root: accounting followed by verification -/
+
+/-- the part passes the path's length check (if it has one) -/
+def RotValid (cfg : RotCfg) (k : Part) : Prop :=
+  match cfg.lenCheck with
+  | some (mn, mx) => mn ≤ k.length ∧ k.length ≤ mx
+  | none => True
+
+/-- the verification step on the parts of an attempt: the recovered key (`Parts[0]` for threshold 1, else
+    `shamir.Combine`) is the current key -/
+def Verified (cfg : RotCfg) (ps : List Part) : Prop :=
+  (cfg.threshold = 1 ∧ ps.head? = some cfg.secret) ∨ (cfg.threshold ≠ 1 ∧ combine ps = .ok cfg.secret)
+
+structure RotInv (cfg : RotCfg) (st : List Part) : Prop where
+  nodup : st.Nodup
+  below : st ≠ [] → (st.length : Int) < cfg.threshold
+
+theorem rotInv_nil (cfg : RotCfg) : RotInv cfg [] := ⟨List.nodup_nil, fun h => absurd rfl h⟩
+
+theorem recoverKey_ok_iff (cfg : RotCfg) (st : List Part) (k : Part) :
+    recoverKey cfg.threshold st k = .ok cfg.secret ↔ Verified cfg (st ++ [k]) := by
+  unfold recoverKey Verified
+  by_cases h1 : cfg.threshold = 1
+  · simp only [h1, if_true, true_and, ne_eq, not_true_eq_false, false_and, or_false]
+    cases st <;> simp
+  · simp [h1]
+
+theorem rotSubmit_rest_cases (cfg : RotCfg) (st : List Part) (k : Part) :
+    (k ∈ st ∧ rotSubmit.rest cfg st k = (st, .duplicate)) ∨
+    (k ∉ st ∧ ((st ++ [k]).length : Int) < cfg.threshold ∧
+      rotSubmit.rest cfg st k = (st ++ [k], .pending (st.length + 1))) ∨
+    (k ∉ st ∧ cfg.threshold ≤ ((st ++ [k]).length : Int) ∧ (rotSubmit.rest cfg st k).1 = [] ∧
+      ((Verified cfg (st ++ [k]) ∧ (rotSubmit.rest cfg st k).2 = .proceeds) ∨
+       (¬ Verified cfg (st ++ [k]) ∧ ((rotSubmit.rest cfg st k).2 = .verifyFail ∨
+          ∃ e, (rotSubmit.rest cfg st k).2 = .combineErr e)))) := by
+  unfold rotSubmit.rest
+  by_cases h3 : k ∈ st
+  · left; simp [h3]
+  right
+  by_cases h4 : ((st ++ [k]).length : Int) < cfg.threshold
+  · left; refine ⟨h3, h4, ?_⟩; simp only [h3, h4, List.contains_iff_mem, if_true, if_false]
+  · right
+    refine ⟨h3, by omega, ?_, ?_⟩
+    · simp only [h3, h4, List.contains_iff_mem, if_false]
+      split
+      · rfl
+      · split <;> rfl
+    · simp only [h3, h4, List.contains_iff_mem, if_false]
+      rw [← recoverKey_ok_iff]
+      cases hr : recoverKey cfg.threshold st k with
+      | error e => right; exact ⟨by simp, Or.inr ⟨e, rfl⟩⟩
+      | ok key =>
+        by_cases hk : key = cfg.secret
+        · left; subst hk; exact ⟨rfl, by simp⟩
+        · right
+          refine ⟨by intro h; injection h with h; exact hk h, Or.inl ?_⟩
+          simp [hk]
+
+theorem rotSubmit_cases (cfg : RotCfg) (st : List Part) (k : Part) :
+    (¬ RotValid cfg k ∧ (rotSubmit cfg st k = (st, .tooShort) ∨ rotSubmit cfg st k = (st, .tooLong))) ∨
+    (RotValid cfg k ∧ rotSubmit cfg st k = rotSubmit.rest cfg st k) := by
+  unfold rotSubmit RotValid
+  cases hlc : cfg.lenCheck with
+  | none => right; exact ⟨trivial, rfl⟩
+  | some mm =>
+    obtain ⟨mn, mx⟩ := mm
+    simp only
+    by_cases h1 : k.length < mn
+    · left; exact ⟨by omega, Or.inl (by simp [h1])⟩
+    by_cases h2 : k.length > mx
+    · left; exact ⟨by omega, Or.inr (by simp [h1, h2])⟩
+    · right; exact ⟨by omega, by simp [h1, h2]⟩
+
+/-- **proceeds ⇔ verified quorum**: a submission lets the operation proceed exactly when it is a new, acceptable
+    part that brings the attempt to the threshold and the key recovered from the attempt's parts is the
+    current key. -/
+theorem rotSubmit_proceeds_iff (cfg : RotCfg) (st : List Part) (k : Part) :
+    (rotSubmit cfg st k).2 = .proceeds ↔
+      (RotValid cfg k ∧ k ∉ st ∧ cfg.threshold ≤ ((st ++ [k]).length : Int) ∧ Verified cfg (st ++ [k])) := by
+  rcases rotSubmit_cases cfg st k with ⟨hv, e | e⟩ | ⟨hv, e⟩
+  · rw [e]; constructor
+    · intro h; cases h
+    · intro h; exact absurd h.1 hv
+  · rw [e]; constructor
+    · intro h; cases h
+    · intro h; exact absurd h.1 hv
+  · rw [e]
+    rcases rotSubmit_rest_cases cfg st k with ⟨hm, e2⟩ | ⟨hm, hlt, e2⟩ | ⟨hm, hge, _, ⟨hver, e2⟩ | ⟨hnv, e2⟩⟩
+    · rw [e2]; constructor
+      · intro h; cases h
+      · intro h; exact absurd hm h.2.1
+    · rw [e2]; constructor
+      · intro h; cases h
+      · intro h; omega
+    · rw [e2]; exact ⟨fun _ => ⟨hv, hm, hge, hver⟩, fun _ => rfl⟩
+    · constructor
+      · intro h
+        rcases e2 with e2 | ⟨e', e2⟩ <;> rw [e2] at h <;> cases h
+      · intro h; exact absurd h.2.2.2 hnv
+
+/-- the new state is the old one, the old one plus the part, or empty -/
+theorem rotSubmit_state (cfg : RotCfg) (st : List Part) (k : Part) :
+    (rotSubmit cfg st k).1 = st ∨ (k ∉ st ∧ ((st ++ [k]).length : Int) < cfg.threshold ∧
+      (rotSubmit cfg st k).1 = st ++ [k]) ∨ (rotSubmit cfg st k).1 = [] := by
+  rcases rotSubmit_cases cfg st k with ⟨_, e | e⟩ | ⟨_, e⟩
+  · rw [e]; exact Or.inl rfl
+  · rw [e]; exact Or.inl rfl
+  · rw [e]
+    rcases rotSubmit_rest_cases cfg st k with ⟨_, e2⟩ | ⟨hm, hlt, e2⟩ | ⟨_, _, e2, _⟩
+    · rw [e2]; exact Or.inl rfl
+    · rw [e2]; exact Or.inr (Or.inl ⟨hm, hlt, rfl⟩)
+    · exact Or.inr (Or.inr e2)
+
+theorem rotSubmit_inv {cfg : RotCfg} {st : List Part} (h : RotInv cfg st) (k : Part) :
+    RotInv cfg (rotSubmit cfg st k).1 := by
+  rcases rotSubmit_state cfg st k with e | ⟨hm, hlt, e⟩ | e
+  · rw [e]; exact h
+  · rw [e]
+    exact ⟨List.nodup_append.2 ⟨h.nodup, nodup_single k,
+      fun a ha b hb => by rw [List.mem_singleton.1 hb]; intro e; exact hm (e ▸ ha)⟩, fun _ => hlt⟩
+  · rw [e]; exact rotInv_nil cfg
+
+theorem rotRun_nil (cfg : RotCfg) (st : List Part) : rotRun cfg st [] = (st, []) := rfl
+theorem rotRun_cons (cfg : RotCfg) (st : List Part) (k : Part) (ks : List Part) :
+    rotRun cfg st (k :: ks) =
+      ((rotRun cfg (rotSubmit cfg st k).1 ks).1, (rotSubmit cfg st k).2 :: (rotRun cfg (rotSubmit cfg st k).1 ks).2) := rfl
+
+theorem rotRun_inv {cfg : RotCfg} (ks : List Part) : ∀ {st}, RotInv cfg st → RotInv cfg (rotRun cfg st ks).1 := by
+  induction ks with
+  | nil => intro st h; exact h
+  | cons k ks ih => intro st h; rw [rotRun_cons]; exact ih (rotSubmit_inv h k)
+
+/-- **every step that proceeds rests on a verified quorum of that attempt.** For every history `ks` from a state
+    `st` satisfying the invariant and every position `i` whose outcome is `proceeds`: the parts `ps` of that attempt
+    end with the part submitted at `i`, are pairwise distinct, were all submitted at or before `i` (or recorded
+    initially), are at least `threshold` many (exactly `threshold`, or one when the threshold is below one), and
+    the key recovered from exactly these parts is the current key. -/
+theorem rotRun_proceeds_sound {cfg : RotCfg} (ks : List Part) : ∀ {st}, RotInv cfg st →
+    ∀ i, (rotRun cfg st ks).2[i]? = some .proceeds →
+      ∃ (ps : List Part) (k : Part), ks[i]? = some k ∧ ps.getLast? = some k ∧ RotValid cfg k ∧ ps.Nodup ∧
+        (∀ p ∈ ps, p ∈ st ∨ p ∈ ks.take (i + 1)) ∧ cfg.threshold ≤ (ps.length : Int) ∧
+        ((ps.length : Int) = cfg.threshold ∨ ps.length = 1) ∧ Verified cfg ps := by
+  induction ks with
+  | nil => intro st _ i h; simp [rotRun_nil] at h
+  | cons k ks ih =>
+    intro st hinv i h
+    rw [rotRun_cons] at h
+    cases i with
+    | zero =>
+      simp only [List.getElem?_cons_zero, Option.some.injEq] at h
+      obtain ⟨hv, hm, hge, hver⟩ := (rotSubmit_proceeds_iff cfg st k).1 h
+      refine ⟨st ++ [k], k, rfl, by simp, hv, ?_, ?_, hge, ?_, hver⟩
+      · exact List.nodup_append.2 ⟨hinv.nodup, nodup_single k,
+          fun a ha b hb => by rw [List.mem_singleton.1 hb]; intro e; exact hm (e ▸ ha)⟩
+      · intro p hp
+        rcases List.mem_append.1 hp with hp | hp
+        · exact Or.inl hp
+        · exact Or.inr (by rw [List.mem_singleton.1 hp]; simp)
+      · by_cases hst : st = []
+        · right; simp [hst]
+        · left
+          have := hinv.below hst
+          simp only [List.length_append, List.length_singleton] at hge ⊢
+          omega
+    | succ i =>
+      simp only [List.getElem?_cons_succ] at h
+      obtain ⟨ps, k', hk', hlast, hv, hnd, hmem, hge, hlen, hver⟩ := ih (rotSubmit_inv hinv k) i h
+      refine ⟨ps, k', by simpa using hk', hlast, hv, hnd, ?_, hge, hlen, hver⟩
+      intro p hp
+      rcases hmem p hp with h' | h'
+      · rcases rotSubmit_state cfg st k with e | ⟨_, _, e⟩ | e <;> rw [e] at h'
+        · exact Or.inl h'
+        · rcases List.mem_append.1 h' with h' | h'
+          · exact Or.inl h'
+          · exact Or.inr (by rw [List.mem_singleton.1 h']; simp)
+        · simp at h'
+      · exact Or.inr (by simp only [List.take_succ_cons]; exact List.mem_cons_of_mem _ h')
+
 end Obao.Threshold
